@@ -253,7 +253,8 @@ def units(tier, seed):
     for e in coded_enums() + int_enums():
         out.append(Unit('table/%s' % e.__name__, table_unit(e, e.__name__), replay=table_replay(e), search=lambda seed, e=e: table_replay(e)({}),
                         clause='C10 tables', backend='native-ground'))
-    return out
+    from checks import foundation
+    return out + foundation.units(tier, seed, include_enum=False)
 
 
 FINDING_REPLAYS = {}
